@@ -28,8 +28,9 @@ def main():
     sys.path.insert(0, src)
     os.environ["VERIF_SRC"] = src
     mod = importlib.import_module(modname)
-    from . import forms
+    from . import forms, inherit
     forms.install(mod)
+    inherit.install(mod)
     import pyunicorn
     assert os.path.realpath(pyunicorn.__file__).startswith(
         os.path.realpath(src)), pyunicorn.__file__
@@ -44,6 +45,7 @@ def main():
             try:
                 mod.run(ctx)
                 forms.attach(ctx)
+                inherit.attach(ctx)
             except Exception:   # noqa  a crash of the harness is never a
                 import traceback            # verdict: exit 2, no VIOLATION
                 traceback.print_exc()
